@@ -185,7 +185,8 @@ MCRT_WRAPS = ["pthread_create", "pthread_join", "pthread_detach", "pthread_exit"
               "pthread_rwlock_wrlock", "pthread_rwlock_trywrlock", "pthread_rwlock_unlock",
               "pthread_key_create", "pthread_key_delete", "pthread_getspecific", "pthread_setspecific",
               "sched_yield", "pthread_setname_np", "nanosleep", "clock_nanosleep", "usleep", "sleep", "pthread_yield", "pthread_once",
-              "malloc", "calloc", "realloc", "free", "memcpy", "memset", "memmove"]
+              "malloc", "calloc", "realloc", "free", "memcpy", "memset", "memmove", "getaddrinfo",
+              "strcpy", "strncpy", "strcat", "strncat", "fgets", "inet_ntop", "inet_pton", "snprintf", "sprintf"]
 
 
 IPC_WRAPS = ["sem_open", "sem_close", "sem_unlink", "sem_wait", "sem_trywait", "sem_post", "sem_getvalue",
